@@ -132,6 +132,9 @@ func oracle(ops, outs []string) *corr.Violation {
 			continue
 		}
 		out := outs[i]
+		if strings.Contains(out, "INPUT-MUTATED") {
+			return mk(i, "call-mutates-its-input:"+w[0], "a published public polynomial handed to the call was modified by it (inputs must be left as they are: they are used again)")
+		}
 		switch w[0] {
 		case "dkg":
 			if len(w) != 3 || out != "ok" {
@@ -292,7 +295,14 @@ func oracle(ops, outs []string) *corr.Violation {
 			if len(w) == 3 {
 				pushSig(i, prov{kind: "tshare", who: w[1], m: w[2], set: tksKey})
 			}
-		case "reconstruct":
+		case "tid":
+			if len(w) == 2 && strings.HasPrefix(out, "id ") {
+				x, _ := strconv.Atoi(w[1])
+				if out != fmt.Sprintf("id %d", x+1) {
+					return mk(i, "threshold-id-string-round-trip", fmt.Sprintf("share %d has id %d; after GetID -> SetID it is read back as %q", x, x+1, out))
+				}
+			}
+		case "reconstruct", "reconstructs":
 			if len(w) == 2 {
 				es := list(w[1])
 				good := len(es) >= tksT && tksT >= 1
